@@ -155,14 +155,18 @@ def run(ctx):
     C02.dirty_flag_rules(ctx, "R-C09.7")
 
     # ---- R-C09.3 mode forwarded unchanged
-    fw = [("db::Database::persist", R.JOURNAL_PERSIST), (R.JOURNAL_PERSIST, R.PERSIST),
+    # Database::persist may go through Journal::persist or (holding the journal lock itself, so that the poison flag is
+    # checked and set under it) straight to Writer::persist
+    fw = [("db::Database::persist", (R.JOURNAL_PERSIST, R.PERSIST)), (R.JOURNAL_PERSIST, R.PERSIST),
           ("tx::single_writer::TxDatabase::persist", "db::Database::persist"),
           ("tx::optimistic::OptimisticTxDatabase::persist", "db::Database::persist")]
     for caller, callee in fw:
         fn = ctx.fn(caller, "R-C09.3")
         if not fn:
             continue
-        bs = R.call_blocks(fn, (callee,))
+        callees = callee if isinstance(callee, tuple) else (callee,)
+        bs = R.call_blocks(fn, callees)
+        callee = "/".join(c.split("::")[-2] + "::" + c.split("::")[-1] for c in callees)
         ok = False
         detail = "no call to %s" % callee
         fwd = []
